@@ -146,6 +146,13 @@ var garbageLines = []string{"", " ", "HEL", "QUI", "FOO bar", "HELLO", "SEND x",
 func genBody(g *vh.Gen, o Opts, from string, tos []string) []string {
 	var ls []string
 	if g.Chance(0.85) {
+		if g.Chance(0.012) {
+			// a long header block: trace fields ABOVE the main fields, 1 KB .. 300 KB of them (whatever reads "the header"
+			// with a size in mind meets From / To / Subject beyond it)
+			for i, n := 0, g.Pick2(10, 200, 1100, 3000); i < n; i++ {
+				ls = append(ls, "X-Trace-"+strconv.Itoa(i)+": "+strings.Repeat(g.Pick("h", "t"), 80))
+			}
+		}
 		switch g.Intn(6) {
 		case 0: // no From header
 		case 1:
